@@ -173,6 +173,29 @@ def judge(setting, obs):
                             dict(wit0, probe=pr, depth=exp["validation_depth"]),
                             classify_depth_probe(pr, exp["validation_depth"],
                                                  want)))
+    # probes inside a user config_context: the override is in force
+    for pr in obs.get("ctx_probes", []):
+        cfg = dict(exp)
+        cfg.update(pr["override"])
+        want = expected_probe(pr["name"], cfg)
+        counts.append(f"env:ctx_probe:{want}")
+        counts.append(f"env:ctx_probe:{pr['label']}")
+        if not pr["argument_unchanged"]:
+            out.append(("validate-changed-its-argument",
+                        dict(wit0, probe=pr), None))
+        if want is None:
+            continue
+        if want == "same":
+            if pr["outcome"] != "ok" or not pr.get("returned_same_object"):
+                out.append(("context-disabled-but-argument-not-returned",
+                            dict(wit0, probe=pr), None))
+        else:
+            got = "accept" if pr["outcome"] == "ok" else (
+                "reject" if pr["outcome"] in ("SchemaError", "SchemaErrors")
+                else pr["outcome"])
+            if got != want:
+                out.append((f"context-override-not-honoured-under-env:expected-{want}",
+                            dict(wit0, probe=pr), None))
     return out, counts
 
 
